@@ -26,6 +26,8 @@ func main() {
 		rc = describeMain(os.Args[2:])
 	case "soloref":
 		rc = solorefMain(os.Args[2:])
+	case "c19refs":
+		rc = c19refsMain(os.Args[2:])
 	default:
 		fmt.Fprintln(os.Stderr, "unknown subcommand", os.Args[1])
 		rc = 2
